@@ -821,8 +821,9 @@ theorem cmsVerify_of_verify {C : Crypto} {ok : Bytes → Bool} {b : Bytes} {p : 
 /-! ### C16: canonical attribute bodies -/
 
 /-- The body of the transmitted signed attributes is *canonical* for the parsed values `a`: it is
-    exactly the layout `Attributes.Marshal` writes for them,
-    `attrSeq contentType ++ [attrSeq signingTime] ++ attrSeq messageDigest ++ other attributes`
+    exactly the layout `Attributes.Marshal` writes for them, the encodings
+    `attrSeq contentType, [attrSeq signingTime], attrSeq messageDigest, other attributes`
+    sorted into DER SET OF order (`sortEnc`, F19) and concatenated,
     with all OIDs valid (`attrsBody a = some body`).  For values obtained from `attrLoop` the time
     text satisfies `parseUTC t = some t'` with `t'` the stored text, and every other attribute
     is stored as (oid, SET contents) — see `attrsBody`. -/
@@ -892,9 +893,11 @@ def attrs : Attrs := { contentType := some oid, md := content, time := some time
 def body : Bytes := (attrsBody attrs).getD []
 def blob : Bytes := mkBlob (some body) (addASN1 tSET body)
 
-/-- messageDigest first, no signing time: accepted by the parser, not what `Marshal` writes -/
+/-- contentType before messageDigest, no signing time: accepted by the parser, not what `Marshal`
+    writes (not the DER SET OF order: the messageDigest attribute is the shorter encoding and
+    sorts first) -/
 def bodyReordered : Bytes :=
-  attrSeq oidMessageDigest (addOctets content) ++ attrSeq oidContentType (oidOr oid)
+  attrSeq oidContentType (oidOr oid) ++ attrSeq oidMessageDigest (addOctets content)
 def blobReordered : Bytes := mkBlob (some bodyReordered) (addASN1 tSET bodyReordered)
 /-- the values parsed from `bodyReordered` (without `raw`) -/
 def attrsReordered : Attrs := { contentType := some oid, md := content }
